@@ -814,6 +814,13 @@ func (x *Explorer) oldFromRead(st *State, ev *Event, t *Table) *OldRow {
 	}
 	switch st.errs[ev.ErrID] {
 	case 2:
+		// a failed read means "no such row" only when the error was classified as NotFound on this path
+		// (err == ormerrors.NotFound, ormerrors.IsNotFound, NotFound.Is); any other failure — a backend or
+		// decode error — says nothing about the row, and a write that takes it for absence overwrites
+		// whatever is stored
+		if !st.factSet[fmt.Sprintf("+ErrIs(%d,NotFound)", ev.ErrID)] {
+			return &OldRow{Unknown: "the read of this key failed with an error that was not classified as NotFound on this path: a storage or decode failure is not absence, the row may exist"}
+		}
 		return &OldRow{Absent: true, From: from}
 	case 1:
 		if o := st.mem[ev.RowObj]; o != nil {
